@@ -11,7 +11,7 @@ From Coq Require Import List NArith ZArith Bool Arith Lia Permutation.
 Import ListNotations.
 From LC.Base Require Import Utf8 Float64 Sort SortProof Float64Proof.
 From LC.V2 Require Import Tok SSet Match ScoringProof MatchND MatchWF.
-From LC.V2 Require Import Planted TokSim TokInv PlantedText FilterProof.
+From LC.V2 Require Import Planted TokSim TokInv PlantedText FilterProof FilterKeep.
 
 (* THE PROPERTY at the level of the file's text: pre ++ docu ++ post with pre and docu ending at settled line boundaries (newline-terminated lines none of which ends in a pending hyphen): the copy is reported with confidence 1.0, token span exactly the copy, lines = the lines of its first and last word, names of the document - under the isolation hypothesis of the token-level theorem and the diff contract *)
 (* statement as proved in V2/PlantedText.v (written out; checked against the lemma by exact) *)
@@ -261,6 +261,43 @@ Theorem C01_filter_idempotent :
   forall l : list mtch, filter_candidates (filter_candidates l) = filter_candidates l.
 Proof. exact (@filter_idempotent). Qed.
 Print Assumptions C01_filter_idempotent.
+
+(* a candidate that no retained earlier candidate blocks and no later candidate evicts is in the result, for every candidate list *)
+Theorem C01_candidate_survives : forall l1 c l2,
+  (forall o, In o (filter_candidates l1) -> blocks c o = false) ->
+  (forall c', In c' l2 -> evicts c' c = false) ->
+  In c (filter_candidates (l1 ++ c :: l2)).
+Proof. exact survives. Qed.
+Print Assumptions C01_candidate_survives.
+
+(* in particular when every retained earlier match is line-disjoint from it or is a multi-line match on whose LAST line it starts (the StartLine == EndLine exception; seeded change C01-m6 removes it) *)
+(* statement as proved in V2/FilterKeep.v (written out; checked against the lemma by exact) *)
+Theorem C01_survives_beside_or_on_last_line :
+  forall (l1 : list mtch) (c : mtch) (l2 : list mtch),
+         (m_sl c <= m_el c)%Z ->
+         (forall o : mtch, In o (filter_candidates l1) -> beside_or_last_line c o) ->
+         (forall c' : mtch, In c' l2 -> cannot_evict c' c) -> In c (filter_candidates (l1 ++ c :: l2)).
+Proof. exact (@survives_last_line). Qed.
+Print Assumptions C01_survives_beside_or_on_last_line.
+
+(* the exception itself: a candidate starting on the last line of a multi-line retained match is not rejected by it *)
+(* statement as proved in V2/FilterKeep.v (written out; checked against the lemma by exact) *)
+Theorem C01_last_line_not_blocked :
+  forall c o : mtch,
+         m_sl c = m_el o -> (m_sl o < m_el o)%Z -> (m_sl c <= m_el c)%Z -> blocks c o = false.
+Proof. exact (@last_line_not_blocked). Qed.
+Print Assumptions C01_last_line_not_blocked.
+
+(* the recorded known finding, pinned down: two matches lying wholly on the same single line contain each other, and the one with the smaller token-weighted confidence is dropped in either order *)
+(* statement as proved in V2/FilterKeep.v (written out; checked against the lemma by exact) *)
+Theorem C01_two_copies_on_one_line :
+  forall c o : mtch,
+         m_sl c = m_el c ->
+         m_sl o = m_el o ->
+         m_sl c = m_sl o ->
+         flt (wconf c) (wconf o) = true -> filter_candidates [o; c] = [o] /\ filter_candidates [c; o] = [o].
+Proof. exact (@one_line_pair_filter). Qed.
+Print Assumptions C01_two_copies_on_one_line.
 
 (* the exact condition under which the overlap/containment filter keeps a candidate *)
 (* statement as proved in V2/Planted.v (written out; checked against the lemma by exact) *)
